@@ -47,6 +47,9 @@ type fctx struct {
 	n         int
 	everyStmt bool
 	lockTrace bool
+	stmtYield bool // a yield point before every other statement too, numbered apart (#s<k>) so that the names of the
+	// synchronisation sites stay what they are
+	m int
 }
 
 func isLockCall(s ast.Stmt) bool {
@@ -223,6 +226,13 @@ func (c *fctx) stmts(in []ast.Stmt) []ast.Stmt {
 			out = append(out, s, &ast.ExprStmt{X: &ast.CallExpr{Fun: ast.NewIdent("verifLock"), Args: []ast.Expr{
 				&ast.BasicLit{Kind: token.STRING, Value: fmt.Sprintf("%q", c.name)}}}})
 			continue
+		case c.stmtYield:
+			if _, isDecl := s.(*ast.DeclStmt); !isDecl {
+				if _, isDefer := s.(*ast.DeferStmt); !isDefer {
+					out = append(out, pointStmt(fmt.Sprintf("%s#s%d.stmt", c.name, c.m)))
+					c.m++
+				}
+			}
 		case c.everyStmt:
 			// the shared tables: a yield point before every statement, also inside their (channel-based) lock regions
 			if _, isDecl := s.(*ast.DeclStmt); !isDecl {
@@ -397,6 +407,13 @@ func main() {
 			}
 			if recvName(fd) == "Connection." {
 				c.lockTrace = true
+			}
+			switch recvName(fd) + fd.Name.Name {
+			case "dispatch.Call", "dispatch.Notify", "dispatch.handleCancel", "callRequest.Reply", "callCompressedRequest.Reply",
+				"callRequest.Serve", "callCompressedRequest.Serve", "framedMsgpackEncoder.compressData",
+				"framedMsgpackEncoder.encodeAndWriteInternal", "framedMsgpackEncoder.EncodeAndWriteAsync":
+				// value hand-overs between goroutine-local steps (compress, encode, hand off) must be interleavable
+				c.stmtYield = true
 			}
 			fd.Body.List = c.stmts(fd.Body.List)
 		}
